@@ -724,6 +724,41 @@ def emit_bind_rejects(t):
     return "\n".join(L)
 
 
+# ---------------------------------------------------------------------------- what `for` can iterate over
+def iterable_tables(repo: Path):
+    """the value kinds the `for` statement can walk: the arms of the function that turns a value into [key, value] pairs
+    (located by shape: a function whose body is one `match` on a value with `Value::K(..)` arms building pairs and a
+    rejecting default)"""
+    src = strip_comments((repo / "src/eval/mod.rs").read_text())
+    found = []
+    for m in re.finditer(r"\bfn\s+(\w+)\s*\([^)]*\)\s*->\s*Result<Vec<\(SourcedValue, SourcedValue\)>>", src):
+        body = fn_body(src, m.group(1), "iterables")
+        mm = re.search(r"\bmatch \w+ \{", body)
+        if not mm:
+            continue
+        end = balanced(body, mm.end() - 1, "{", "}")
+        kinds, default = [], False
+        for pat, arm in match_arms(body[mm.end():end - 1], "iterables"):
+            if pat == "_":
+                default = "Err(" in arm or "new_loc_err" in arm or "Err::<" in arm
+                continue
+            pm = re.fullmatch(r"Value::(\w+)(?:\((\w+)\)|\{[^}]*\})?", pat)
+            if not pm or pm.group(1) not in VALUE_KIND:
+                raise ExtractError("iterables", f"arm pattern not `Value::K(x)`: {pat!r}")
+            kinds.append(VALUE_KIND[pm.group(1)])
+        if not default:
+            raise ExtractError("iterables", f"`{m.group(1)}` has no rejecting default arm")
+        found.append(kinds)
+    if len(found) != 1:
+        raise ExtractError("iterables", f"expected exactly one value-to-pairs function, found {len(found)}")
+    return found[0]
+
+
+def emit_iterables(kinds):
+    return ("/-- value kinds `for` can iterate over (every other kind is the `for` type error) -/\n"
+            "def iterableKinds : List Kind := [" + ", ".join(f"Kind.{k}" for k in kinds) + "]\n")
+
+
 def extend(repo: Path, tables):
     det = determinism_tables(repo)
     tables["determinism"] = det
@@ -749,6 +784,9 @@ def extend(repo: Path, tables):
     br = bind_reject_tables(repo)
     tables["bind_rejects"] = br
     tables.setdefault("extra_lean", []).append(emit_bind_rejects(br))
+    it = iterable_tables(repo)
+    tables["iterables"] = it
+    tables.setdefault("extra_lean", []).append(emit_iterables(it))
     eqt = eq_tables(repo)
     tables["eq_arms"] = eqt
     tables.setdefault("extra_lean", []).append(emit_eq(eqt))
